@@ -35,7 +35,8 @@ TARGETS = {
     "script": ["Script.raw_serialize", "Script.serialize", "Script.__init__", "p2wsh_script", "p2wpkh_script", "p2sh_script", "p2pkh_script"],
     "bip39": ["correct_entropy_bits_value", "checksum_length", "mnemonic_sentence_length", "mnemonic_from_entropy", "mnemonic_from_entropy_bits",
               "bip39_seed_from_mnemonic"],
-    "bip85": ["BIP85DeterministicEntropy.byte_count_from_word_count", "BIP85DeterministicEntropy.hex", "BIP85DeterministicEntropy.bip39_mnemonic"],
+    "bip85": ["BIP85DeterministicEntropy.byte_count_from_word_count", "BIP85DeterministicEntropy.hex", "BIP85DeterministicEntropy.bip39_mnemonic",
+              "BIP85DeterministicEntropy.pwd"],
     "ripemd": ["fi", "rol", "compress", "ripemd160"],
     "keys": ["PrivateKey.__bytes__", "PrivateKey.wif"],
     "__main__": ["value_in_interval", "address_index", "account_index", "extended_key", "mnemonic", "bip39_seed", "entropy_hex"],
@@ -464,6 +465,13 @@ class FunTrans:
                     and isinstance(pat.right, ast.Constant) and isinstance(pat.right.value, int):
                 return "(EBuiltin BChunks (ECons (EConst (VInt %d)) %s))" % (pat.right.value, self.exprs([e.args[1]], scope))
             raise Untranslatable("re.findall with a pattern other than '.' * K")
+        # base64.b64encode(b): a builtin of the fragment (RFC 4648, Lib/PyInt.b64encode), admitted only when the module binds the name
+        # `base64` by a plain import and nothing else
+        if isinstance(f, ast.Attribute) and isinstance(f.value, ast.Name) and f.value.id == "base64" and f.attr == "b64encode" \
+                and not self.is_local("base64", scope) and len(e.args) == 1 and not e.keywords and not isinstance(e.args[0], ast.Starred):
+            if not self.world.plain_import(self.mod.name, "base64"):
+                raise Untranslatable("base64 is not bound by a plain import only")
+            return "(EBuiltin BB64Encode %s)" % self.exprs(e.args, scope)
         # unicodedata.normalize("NFKD", s) / hashlib.pbkdf2_hmac("sha512", pw, salt, rounds)
         if isinstance(f, ast.Attribute) and isinstance(f.value, ast.Name) and not self.is_local(f.value.id, scope) and not e.keywords \
                 and not any(isinstance(a, ast.Starred) for a in e.args):
@@ -517,6 +525,8 @@ class FunTrans:
                 if "{" in f.value.value.replace("{}", "") or "}" in f.value.value.replace("{}", "") or any(isinstance(a, ast.Starred) for a in e.args):
                     raise Untranslatable("format template with fields other than {}")
                 return "(EMeth MFormat %s %s)" % (self.expr(f.value, scope), self.exprs(e.args, scope))
+            if f.attr == "decode" and not e.args:
+                return "(EMeth MDecode %s ENil)" % self.expr(f.value, scope)
             if f.attr == "encode" and len(e.args) == 1 and isinstance(e.args[0], ast.Constant) and e.args[0].value == "utf-8":
                 return "(EMeth MEncodeUtf8 %s ENil)" % self.expr(f.value, scope)
             if f.attr == "encode" and len(e.args) == 1 and isinstance(e.args[0], ast.Constant) and e.args[0].value == "ascii":
@@ -705,7 +715,11 @@ class World:
     def extern_ok(self, qual):
         m, f = qual.split(".", 1)
         if isinstance(EXTERNS[qual][1], tuple):
-            name = EXTERNS[qual][1][1]
+            return self.plain_import(m, EXTERNS[qual][1][1])
+        return self.extern_ok2(qual)
+
+    def plain_import(self, m, name):
+        if True:
             tree = self.mod(m).tree
             binds = [n for n in ast.walk(tree) if (isinstance(n, (ast.Assign, ast.AugAssign, ast.AnnAssign, ast.For, ast.With, ast.FunctionDef, ast.ClassDef)) and
                                                    (getattr(n, "name", None) == name or
@@ -714,6 +728,9 @@ class World:
                      or (isinstance(n, ast.arg) and n.arg == name)
                      or (isinstance(n, (ast.Import, ast.ImportFrom)) and any((a.asname or a.name) == name for a in n.names))]
             return [ast.unparse(b) for b in binds] == ["import " + name] and all(b in tree.body for b in binds)
+
+    def extern_ok2(self, qual):
+        m, f = qual.split(".", 1)
         if EXTERNS[qual][1] is None:
             # `import random` and exactly one module-level binding of the name: random = random.SystemRandom()
             tree = self.mod(m).tree
